@@ -12,21 +12,26 @@ def shape (it : Item) : Nat × Kind × Bool := (it.id, it.kind, it.batch)
 /-- how a completion relates to the arrival it came from: the handler's own outcome strictly
 before the deadline, or an overrun exactly at the deadline -/
 def Completes (tm : Timing) (ev : Nat × Item) (ti : TItem) : Prop :=
-  (ev.2 = ti.item ∧ ev.1 < tm.deadline) ∨ (ev.2 = overrun ti.item ∧ ev.1 = tm.deadline)
+  (ev.2 = ti.item ∧ ev.1 < ti.arr + tm.deadline) ∨
+  (ev.2 = overrun ti.item ∧ ev.1 = ti.arr + tm.deadline)
 
 theorem arrive_completes (tm : Timing) (free : List Nat) (ti : TItem) :
     Completes tm (arrive tm free ti).2 ti := by
   unfold arrive Completes
   cases free with
   | nil => simp
-  | cons a rest =>
-    by_cases h1 : tm.deadline ≤ a
+  | cons f rest =>
+    by_cases h1 : ti.arr + tm.deadline ≤ max f ti.arr
     · simp [h1]
     · by_cases h2 : ti.item.outcome = .excessiveCost
-      · simp [h1, h2]; omega
-      · by_cases h3 : ti.item.outcome = .overruns ∨ tm.deadline ≤ a + tm.throttle + ti.dur
+      · simp only [h1, h2, if_false, if_true]
+        left
+        exact ⟨trivial, by omega⟩
+      · by_cases h3 : ti.item.outcome = .overruns ∨
+            ti.arr + tm.deadline ≤ max f ti.arr + tm.throttle + ti.dur
         · simp [h1, h2, h3]
-        · have h4 : ¬ tm.deadline ≤ a + tm.throttle + ti.dur := fun h => h3 (Or.inr h)
+        · have h4 : ¬ ti.arr + tm.deadline ≤ max f ti.arr + tm.throttle + ti.dur :=
+            fun h => h3 (Or.inr h)
           simp only [h1, h2, h3, if_false]
           left
           exact ⟨trivial, by omega⟩
